@@ -452,6 +452,11 @@ func (x *Exec) callByContract(ct *Contract, callee *types.Func, n *ast.CallExpr,
 			argExprs[sig.Params().At(i).Name()] = n.Args[i]
 		}
 	}
+	for k, v := range names {
+		if sl, ok := v.(Sl); ok {
+			names[k] = c.normView(sl)
+		}
+	}
 	calleePkg := c.eng.pkgOf(callee)
 	pre := st
 	env := &SpecEnv{x: &Exec{c: c, pkg: calleePkg, info: calleePkg.info, entry: x.entry, sig: sig, loopOrd: new(int)},
@@ -851,4 +856,27 @@ func (x *Exec) traceOf(qn string, ysig *types.Signature, args []Val, recv Val, h
 	}
 	c.traces[key] = z
 	return z
+}
+
+// normView returns a view of the slice with offset 0: a fresh array equal to
+// the slice's window, linked in both directions with arithmetic-free
+// triggers, so that callee contracts quantify over plain indices.
+func (c *Ctx) normView(s Sl) Sl {
+	if s.Off == "0" {
+		return s
+	}
+	arr, ok := s.Arr.(Sc)
+	if !ok {
+		return s
+	}
+	key := "view:" + arr.T + ":" + s.Off
+	if n, ok := c.strLits[key]; ok {
+		return Sl{Sc{n, arr.S}, "0", s.Len, s.Nil, s.Elem}
+	}
+	n := c.fresh("view", arr.S)
+	c.strLits[key] = n
+	off := c.define("viewoff", SInt, s.Off)
+	c.assume(tTrue, tForall([][2]string{{"i!h", SInt}}, tEq(tSel(n, "i!h"), tSel(arr.T, tAdd("i!h", off))), tSel(n, "i!h")))
+	c.assume(tTrue, tForall([][2]string{{"i!h", SInt}}, tEq(tSel(arr.T, "i!h"), tSel(n, tSub("i!h", off))), tSel(arr.T, "i!h")))
+	return Sl{Sc{n, arr.S}, "0", s.Len, s.Nil, s.Elem}
 }
